@@ -13,6 +13,8 @@ CHECKS = {
          "agreement through the common reference; as C01", "6/C12", None),
  "C13": ("model_checking", "Generated conventional files with one injected malformed line of each kind at each position: specific error code, file path and 1-based line, NULL out-pointer; n-th consulted file malformed in every entry point aborts with that code and nothing partial; missing file; code/message table complete and distinct.",
          "layouts concrete, characters symbolic (as C02); as C01 for the layered part", "6/C13", None),
+ "C14": ("model_checking", "Under scaled BUFSIZ=8 / PATH_MAX=16 every field kind (key, value, quoted value, section, comment before/after, continuation line) at lengths BUFSIZ-1, BUFSIZ, BUFSIZ+1, 2*BUFSIZ (more in thorough) is parsed, returned by the plain and extended getters, written and read back whole, with CBMC's bounds checks on every buffer; values through the setter/getter API at the same lengths; absolute file names around the scaled PATH_MAX.",
+         "SCALED model: the real 8192/4096 sizes and 64Ki/1Mi fields are outside the bound; lengths and characters concrete per instance; econftool's unscalable 1024-byte buffer not covered", "6/C14", None),
  "C15": ("model_checking", "Option strings (every documented item alone, repeated, combined in sampled orders, with unknown/misspelt/empty items): accepted iff all items documented, each effect as documented with last occurrence winning, option-not-found otherwise, no leak. JOIN_SAME_ENTRIES pass on objects with enumerated key and empty-definition patterns (symbolic value characters) against the reference of DESIGN.md 5.2. PYTHON_STYLE on generated layouts with indented lines containing delimiter and comment characters.",
          "option strings and join patterns concrete per instance; python layouts as C02", "5.2, 6/C15", None),
  "C16": ("model_checking", "Reader harness decides every combination of file owner/group/kind with every combination of active restrictions, required ids and reset; layered-read harness shows every entry point aborts with the restriction's code on the refused file and hands back no content.",
